@@ -96,7 +96,17 @@ def run(rep, tier):
             good = False
         if nowrap not in s.conds:
             good = False
-        positives = [c for c in s.conds if c != nowrap and not (isinstance(c, tuple) and c[0] in ("not",) ) and not _is_neg(c)]
+        positives = []
+        for c in s.conds:
+            if c == nowrap:
+                continue
+            leaves = _disjuncts(c)
+            if all(_is_neg_leaf(x) for x in leaves) or all(all(_is_neg_leaf(y) for y in _disjuncts(x)) for x in _conjuncts(c)):
+                continue                    # `not(region test)` of an earlier alternative (or of several: not(r1 || r2 || r3))
+            if all(isinstance(x, tuple) and x and x[0] in ("land", "exists") for x in leaves):
+                positives.extend(leaves)    # `r1 || r2 || r3` accepted in one go is the same as three early returns
+            else:
+                positives.append(c)
         got_regions.append(positives)
     exp = []
     for nm in regions:
@@ -187,6 +197,22 @@ def run(rep, tier):
 
     rep.trust("rustc front end / typed THIR", "slices' as_ptr/len describe live memory", "registered ranges are valid memory (caller's contract)")
     rep.assume("a fault on a checked address is outside the claim (C05 covers panics)")
+
+
+def _disjuncts(c):
+    if isinstance(c, tuple) and c and c[0] == "lor":
+        return _disjuncts(c[1]) + _disjuncts(c[2])
+    return [c]
+
+
+def _conjuncts(c):
+    if isinstance(c, tuple) and c and c[0] == "land":
+        return _conjuncts(c[1]) + _conjuncts(c[2])
+    return [c]
+
+
+def _is_neg_leaf(c):
+    return isinstance(c, tuple) and c and ((c[0] == "cmp" and c[1] == "ult") or c[0] == "not")
 
 
 def _is_neg(c):
